@@ -639,8 +639,15 @@ pub fn post_step(w: &mut World, s: &mut Session, ctx: &PostCtx) -> Result<(), Vi
             }
         }
     }
-    if o.free_count {
+    // on multi-hundred-million-cluster volumes a recount (count unknown after a dirty mount) is legitimate but costs
+    // two device calls per cluster: skip the per-step query there and only compare when the count is maintained
+    if o.free_count && (w.count_known || w.geo.n_clusters <= 2_000_000) {
+        let saved_mode = w.disk.borrow().log_mode;
+        w.disk.borrow_mut().log_mode = if saved_mode == crate::disk::LogMode::Off { saved_mode } else { crate::disk::LogMode::Meta };
+        w.disk.borrow_mut().calls.clear();
         let r = guarded(|| s.fs.stats());
+        w.disk.borrow_mut().calls.clear();
+        w.disk.borrow_mut().log_mode = saved_mode;
         w.disk.borrow_mut().writes.clear();
         match r {
             Guarded::Done(Ok(st)) => check_stats(w, &st)?,
